@@ -460,6 +460,10 @@ func (n *ForNode) renderForLoop(w io.Writer, ctx *RenderContext, seq interface{}
 	// Update loop.length
 	loopVars["loop"].(map[string]interface{})["length"] = length
 
+	// The loop variable of an enclosing for loop is hidden while this loop runs and is put
+	// back when it has finished, so that each nesting level keeps its own counters
+	outerLoop, hadOuterLoop := loopCtx.context["loop"]
+
 	// Iterate based on the type
 	switch val.Kind() {
 	case reflect.Slice, reflect.Array:
@@ -568,6 +572,12 @@ func (n *ForNode) renderForLoop(w io.Writer, ctx *RenderContext, seq interface{}
 				}
 			}
 		}
+	}
+
+	if hadOuterLoop {
+		loopCtx.context["loop"] = outerLoop
+	} else {
+		delete(loopCtx.context, "loop")
 	}
 
 	return nil
